@@ -133,6 +133,9 @@ Qed.
 
 Ltac core_tac := repeat split; reflexivity.
 
+Lemma InvPos_note src s : InvPos src s -> InvPos src (note_observe_lines s).
+Proof. apply InvPos_core. unfold note_observe_lines. core_tac. Qed.
+
 Lemma InvPos_push_error src s e : InvPos src s -> err_pos src e -> InvPos src (push_error s e).
 Proof.
   intros I He. destruct I. unfold push_error. constructor; cbn; try assumption.
@@ -143,7 +146,7 @@ Lemma prep_error_pos src s k : InvPos src s -> err_pos src (prep_error s k).
 Proof. intros I. unfold err_pos, prep_error. cbn [e_byte e_char]. apply cur_pos. exact I. Qed.
 
 Lemma InvPos_emit_error src s k : InvPos src s -> InvPos src (emit_error s k).
-Proof. intros I. unfold emit_error. apply InvPos_push_error; [exact I | apply prep_error_pos; exact I]. Qed.
+Proof. intros I. unfold emit_error. apply InvPos_push_error; [apply InvPos_note; exact I | apply prep_error_pos; exact I]. Qed.
 
 Lemma InvPos_push_mode src s m : InvPos src s -> InvPos src (push_mode s m).
 Proof. apply InvPos_core. unfold push_mode. core_tac. Qed.
@@ -154,9 +157,6 @@ Proof.
   - apply InvPos_push_mode, InvPos_emit_error, I.
   - revert I. apply InvPos_core. core_tac.
 Qed.
-
-Lemma InvPos_note src s : InvPos src s -> InvPos src (note_observe_lines s).
-Proof. unfold note_observe_lines. destruct (g_line_debt _); [|auto]. apply InvPos_core. core_tac. Qed.
 
 Lemma InvPos_clear_debt src s : InvPos src s -> InvPos src (clear_debt s).
 Proof. apply InvPos_core. unfold clear_debt. core_tac. Qed.
@@ -215,16 +215,16 @@ Proof.
     pose proof (last_line_or_add_inv d src _ (InvPos_note _ _ I)) as H.
     destruct (last_line_or_add d (note_observe_lines s)) as [l s'|site s']; [|exact H].
     cbn [res_inv] in *. apply InvPos_set_ct; [exact H|].
-    replace (cur_byte (note_observe_lines s)) with (cur_byte s) by (unfold note_observe_lines; destruct (g_line_debt _); reflexivity).
-    replace (cur_char (note_observe_lines s)) with (cur_char s) by (unfold note_observe_lines; destruct (g_line_debt _); reflexivity).
+    replace (cur_byte (note_observe_lines s)) with (cur_byte s) by reflexivity.
+    replace (cur_char (note_observe_lines s)) with (cur_char s) by reflexivity.
     apply cur_pos; exact I.
   - (* OMarkIfNone *)
     destruct (s_mark s); [exact I|].
     pose proof (last_line_or_add_inv d src _ (InvPos_note _ _ I)) as H.
     destruct (last_line_or_add d (note_observe_lines s)) as [l s'|site s']; [|exact H].
     cbn [res_inv] in *. apply InvPos_set_mark; [exact H|].
-    replace (cur_byte (note_observe_lines s)) with (cur_byte s) by (unfold note_observe_lines; destruct (g_line_debt _); reflexivity).
-    replace (cur_char (note_observe_lines s)) with (cur_char s) by (unfold note_observe_lines; destruct (g_line_debt _); reflexivity).
+    replace (cur_byte (note_observe_lines s)) with (cur_byte s) by reflexivity.
+    replace (cur_char (note_observe_lines s)) with (cur_char s) by reflexivity.
     apply cur_pos; exact I.
   - (* OClearMark *) cbn [res_inv]. destruct I. constructor; cbn; try assumption. exact Logic.I.
   - (* OEmitToken *) apply add_token_inv; [exact I|]. unfold tok_pos; cbn. apply (ip_ct _ _ I).
@@ -313,7 +313,7 @@ Proof.
     destruct (s_cp s) as [k|]; [|apply InvPos_emit_error; exact I].
     destruct Hk as [Hkc Hkt]. cbn [res_inv].
     destruct I. constructor; cbn; try assumption; try exact Logic.I; apply Forall_truncate; assumption.
-  - (* OEmitError *) apply InvPos_emit_error, InvPos_note, I.
+  - (* OEmitError *) apply InvPos_emit_error, I.
   - (* OPrepError *)
     cbn [res_inv]. pose proof (InvPos_note _ _ I) as I'. pose proof (prep_error_pos _ _ k I) as Hp.
     destruct I'. constructor; cbn; assumption.
@@ -333,8 +333,8 @@ Proof.
     pose proof (last_line_or_add_inv d src _ (InvPos_note _ _ I)) as H.
     destruct (last_line_or_add d (note_observe_lines s)) as [l s'|site s']; [|exact H].
     cbn [res_inv] in H. apply add_token_inv; [exact H|]. unfold tok_pos; cbn.
-    replace (cur_byte (note_observe_lines s)) with (cur_byte s) by (unfold note_observe_lines; destruct (g_line_debt _); reflexivity).
-    replace (cur_char (note_observe_lines s)) with (cur_char s) by (unfold note_observe_lines; destruct (g_line_debt _); reflexivity).
+    replace (cur_byte (note_observe_lines s)) with (cur_byte s) by reflexivity.
+    replace (cur_char (note_observe_lines s)) with (cur_char s) by reflexivity.
     apply cur_pos; exact I.
 Qed.
 
